@@ -47,7 +47,10 @@ theorem refill_anchor (b : Buf) (nmin : Nat) (h : WF b) :
                 refine ⟨?_, rfl, (fun hh => by cases hh), by simp [dropFront]⟩
                 rw [dropFront_absAnchor0]; simp [Buf.absAnchor, ha]
               · rename_i hgt
-                exact absurd (h.hanch a ha) hgt
+                cases hb1
+                refine ⟨?_, rfl, (fun hh => by cases hh), by simp [dropFront]⟩
+                simp only [Buf.absAnchor, dropFront, ha, Option.map_some]
+                congr 1; omega
           · cases hb1
             exact ⟨rfl, rfl, (fun x => x), Nat.le_refl _⟩
         obtain ⟨b1, hb1, _⟩ := shiftLeft_spec h
